@@ -118,7 +118,7 @@ impl AsRef<[u32]> for SmtString {
 /// ```
 impl From<&str> for SmtString {
     fn from(x: &str) -> Self {
-        SmtString::make(x.chars().map(|c| c as u32).collect())
+        SmtString::make(x.chars().map(char_code).collect())
     }
 }
 
@@ -182,7 +182,17 @@ impl From<u32> for SmtString {
 ///
 impl From<char> for SmtString {
     fn from(x: char) -> SmtString {
-        SmtString::make(vec![x as u32])
+        SmtString::make(vec![char_code(x)])
+    }
+}
+
+// Code of character x, or REPLACEMENT_CHAR if x is not a valid SMT character
+fn char_code(x: char) -> u32 {
+    let x = x as u32;
+    if x <= MAX_CHAR {
+        x
+    } else {
+        REPLACEMENT_CHAR
     }
 }
 
@@ -222,7 +232,7 @@ fn new_automaton() -> ParsingAutomaton {
 impl ParsingAutomaton {
     // add char x to the string so far
     fn push(&mut self, x: char) {
-        self.string_so_far.push(x as u32);
+        self.string_so_far.push(char_code(x));
     }
 
     // add char x to the pending array
